@@ -322,15 +322,44 @@ def run_C08(ctx):
                 g.append(c)
             groups.append(g)
             allc += g
-    # prefix preservation of the one-shot CFB / CFB-8
+    # long pieces: a call that starts inside a block and still contains many whole blocks (batched fast paths), and a
+    # long call after a block-aligned one
+    for mode in STREAM_MODES + ["cfbbuf-enc", "cfbbuf-dec"]:
+        fam = "buf" if mode.startswith("cfbbuf") else "stream"
+        op = "data" if fam == "buf" else "apply"
+        for _ in range(ctx.n(12, 150)):
+            bs, w = pick_matrix(rng, mode if fam == "stream" else "cbc-enc")
+            if bs > 64:
+                continue
+            key = rb(rng, 16)
+            iv = stream_iv(rng, mode, bs, key)[0] if fam == "stream" else rb(rng, bs)
+            nb = rng.randrange(9, 9 + 2 * max(w, 8) + 2)
+            L = nb * bs + rng.randrange(0, bs)
+            data = rb(rng, L)
+            g = [Case(fam, mode, bs, w, key, iv, ops=[f"{op} {hx(data)}"], role="whole")]
+            j = rng.choice([1, max(bs - 1, 0), bs + 1, rng.randrange(0, 2 * bs + 1)])
+            for comp in ([j, L - j], [bs, L - bs], [j, 0, L - j - 1, 1] if L - j - 1 >= 0 else [L],
+                         [rng.randrange(0, bs + 1), L // 2, L - L // 2 - 0]):
+                comp = [k for k in comp]
+                tot = sum(comp)
+                if tot != L:
+                    comp[-1] += L - tot
+                if min(comp) < 0:
+                    continue
+                g.append(pieces_case(fam, mode, bs, w, key, iv, data, comp, op))
+            groups.append(g)
+            allc += g
+    # prefix preservation of the one-shot CFB / CFB-8 (CFB-8: the mode's blocks are bytes, so a backend wider than the
+    # cipher's block size in bytes is a configuration of its own)
     pref = []
     for mode in ["cfb-enc", "cfb-dec", "cfb8-enc", "cfb8-dec"]:
         for _ in range(ctx.n(40, 500)):
-            bs, w = pick_matrix(rng, mode)
+            bs, w = pick_matrix(rng, mode, (lambda x: x[1] > x[0]) if mode.startswith("cfb8") else None)
             key, iv = rb(rng, 16), rb(rng, bs)
-            L = rng.choice([0, 1, bs - 1, bs, bs + 1, rng.randrange(0, 4 * bs + 1)])
+            L = rng.choice([0, 1, bs - 1, bs, bs + 1, w - 1, w, w + 1, rng.randrange(0, 4 * bs + 1), rng.randrange(0, 2 * w + 2)])
+            L = max(L, 0)
             m = rb(rng, L)
-            ext = rb(rng, rng.choice([1, bs - 1, bs, bs + 1, rng.randrange(1, 3 * bs + 2)]) or 1)
+            ext = rb(rng, rng.choice([1, bs - 1, bs, bs + 1, w, rng.randrange(1, 3 * bs + 2), rng.randrange(1, 2 * w + 2)]) or 1)
             c = Case("block", mode, bs, w, key, iv, ops=[f"oneshot {hx(m)}", f"oneshot {hx(m + ext)}",
                                                            f"oneshotb {hx(m + ext)} {hx(rb_nz(rng, L + len(ext)))}"], role="prefix")
             pref.append(c)
@@ -376,7 +405,8 @@ def run_C09(ctx):
             cuts = range(0, n + 1) if n <= 8 or ctx.thorough else sorted(set([0, 1, n - 1, n] + [rng.randrange(0, n + 1) for _ in range(3)]))
             for k in cuts:
                 g.append(Case("block", mode, bs, w, key, iv,
-                              ops=[blocks_op(rng, data[:k*mbs]), "ivstate", "reinit", f"blocks {hx(data[k*mbs:])}", "ivstate"], role="cut"))
+                              ops=[(blocks_op(rng, data[:k*mbs]) if rng.random() < 0.6 else f"blocksb {hx(data[:k*mbs])} {hx(rb_nz(rng, k*mbs))}"),
+                                   "ivstate", "reinit", f"blocks {hx(data[k*mbs:])}", "ivstate"], role="cut"))
             groups.append(g)
             allc += g
             abs_cases += g
@@ -390,7 +420,8 @@ def run_C09(ctx):
             g = [Case("core", mode, bs, w, key, iv, ops=[f"applyblocks {hx(data)}", "ivstate"], role="whole", cls_iv=cls)]
             for k in range(0, n + 1):
                 g.append(Case("core", mode, bs, w, key, iv,
-                              ops=[coreapply_op(rng, data[:k*bs], bs), "ivstate", "reinit", f"applyblocks {hx(data[k*bs:])}", "ivstate"], role="cut"))
+                              ops=[(coreapply_op(rng, data[:k*bs], bs) if rng.random() < 0.6 else f"applyblocksb {hx(data[:k*bs])} {hx(rb_nz(rng, k*bs))}"),
+                                   "ivstate", "reinit", f"applyblocks {hx(data[k*bs:])}", "ivstate"], role="cut"))
             groups.append(g)
             allc += g
             abs_cases += g
